@@ -152,6 +152,68 @@ impl DiffHook for RecNoReplace {
     }
 }
 
+// ---- recording hooks that stay reachable while wrapped (reuse of one hook stack) ----------
+
+/// Handle on a recording hook: the harness keeps a clone while the hook itself is owned by
+/// an adapter stack, so the recording can be reset between two diffs run through the same
+/// stack object.
+#[derive(Default, Debug, Clone)]
+pub struct SharedRec(pub Rc<std::cell::RefCell<Rec>>);
+
+impl SharedRec {
+    pub fn new() -> SharedRec {
+        SharedRec::default()
+    }
+    /// forget the recorded calls; the next diff's call `k` fails
+    pub fn reset(&self, k: Option<usize>) {
+        let mut r = self.0.borrow_mut();
+        r.calls.clear();
+        r.fail_at = k;
+    }
+    pub fn calls(&self) -> Vec<Call> {
+        self.0.borrow().calls.clone()
+    }
+}
+
+impl DiffHook for SharedRec {
+    type Error = usize;
+    fn equal(&mut self, o: usize, n: usize, l: usize) -> Result<(), usize> {
+        self.0.borrow_mut().push(Call::Eq(o, n, l))
+    }
+    fn delete(&mut self, o: usize, l: usize, n: usize) -> Result<(), usize> {
+        self.0.borrow_mut().push(Call::Del(o, l, n))
+    }
+    fn insert(&mut self, o: usize, n: usize, l: usize) -> Result<(), usize> {
+        self.0.borrow_mut().push(Call::Ins(o, n, l))
+    }
+    fn replace(&mut self, o: usize, ol: usize, n: usize, nl: usize) -> Result<(), usize> {
+        self.0.borrow_mut().push(Call::Rep(o, ol, n, nl))
+    }
+    fn finish(&mut self) -> Result<(), usize> {
+        self.0.borrow_mut().push(Call::Fin)
+    }
+}
+
+/// Like [`SharedRec`] but without an override of `replace`.
+#[derive(Default, Debug, Clone)]
+pub struct SharedRecNoReplace(pub SharedRec);
+
+impl DiffHook for SharedRecNoReplace {
+    type Error = usize;
+    fn equal(&mut self, o: usize, n: usize, l: usize) -> Result<(), usize> {
+        (self.0).0.borrow_mut().push(Call::Eq(o, n, l))
+    }
+    fn delete(&mut self, o: usize, l: usize, n: usize) -> Result<(), usize> {
+        (self.0).0.borrow_mut().push(Call::Del(o, l, n))
+    }
+    fn insert(&mut self, o: usize, n: usize, l: usize) -> Result<(), usize> {
+        (self.0).0.borrow_mut().push(Call::Ins(o, n, l))
+    }
+    fn finish(&mut self) -> Result<(), usize> {
+        (self.0).0.borrow_mut().push(Call::Fin)
+    }
+}
+
 // ---- window Index ---------------------------------------------------------------------
 
 /// An indexable view that panics when read outside `lo..hi`.
@@ -293,4 +355,107 @@ pub fn arm_virtual_time() -> Rc<ClockState> {
     let st3 = st.clone();
     similar::verif::set_now(Some(Box::new(move || vt(st3.probes.get(), false))));
     st
+}
+
+// ---- a caller-side text type whose equality is not byte equality ---------------------------
+
+/// ASCII-case-insensitive byte string: `DiffableStr` is a public trait, so a diff over such a
+/// type has to go by the type's own Eq / Hash / Ord, never by its bytes.
+#[repr(transparent)]
+#[derive(Debug)]
+pub struct Ci(pub [u8]);
+
+impl Ci {
+    pub fn new(b: &[u8]) -> &Ci {
+        // SAFETY: Ci is a transparent wrapper of [u8]
+        unsafe { &*(b as *const [u8] as *const Ci) }
+    }
+    fn folded(&self) -> impl Iterator<Item = u8> + '_ {
+        self.0.iter().map(|b| b.to_ascii_lowercase())
+    }
+}
+
+impl PartialEq for Ci {
+    fn eq(&self, other: &Ci) -> bool {
+        self.0.len() == other.0.len() && self.folded().eq(other.folded())
+    }
+}
+impl Eq for Ci {}
+impl std::hash::Hash for Ci {
+    fn hash<H: std::hash::Hasher>(&self, h: &mut H) {
+        h.write_usize(self.0.len());
+        for b in self.folded() {
+            h.write_u8(b);
+        }
+    }
+}
+impl PartialOrd for Ci {
+    fn partial_cmp(&self, other: &Ci) -> Option<std::cmp::Ordering> {
+        Some(self.cmp(other))
+    }
+}
+impl Ord for Ci {
+    fn cmp(&self, other: &Ci) -> std::cmp::Ordering {
+        self.folded().cmp(other.folded())
+    }
+}
+
+#[derive(Debug, Clone, PartialEq, Eq)]
+pub struct CiBuf(pub Vec<u8>);
+
+impl std::borrow::Borrow<Ci> for CiBuf {
+    fn borrow(&self) -> &Ci {
+        Ci::new(&self.0)
+    }
+}
+impl ToOwned for Ci {
+    type Owned = CiBuf;
+    fn to_owned(&self) -> CiBuf {
+        CiBuf(self.0.to_vec())
+    }
+}
+
+fn ci_vec(v: Vec<&[u8]>) -> Vec<&Ci> {
+    v.into_iter().map(Ci::new).collect()
+}
+
+impl similar::DiffableStr for Ci {
+    fn tokenize_lines(&self) -> Vec<&Ci> {
+        ci_vec(self.0.tokenize_lines())
+    }
+    fn tokenize_lines_and_newlines(&self) -> Vec<&Ci> {
+        ci_vec(self.0.tokenize_lines_and_newlines())
+    }
+    fn tokenize_words(&self) -> Vec<&Ci> {
+        ci_vec(self.0.tokenize_words())
+    }
+    fn tokenize_chars(&self) -> Vec<&Ci> {
+        ci_vec(self.0.tokenize_chars())
+    }
+    #[cfg(feature = "unicode")]
+    fn tokenize_unicode_words(&self) -> Vec<&Ci> {
+        ci_vec(self.0.tokenize_unicode_words())
+    }
+    #[cfg(feature = "unicode")]
+    fn tokenize_graphemes(&self) -> Vec<&Ci> {
+        ci_vec(self.0.tokenize_graphemes())
+    }
+    fn as_str(&self) -> Option<&str> {
+        std::str::from_utf8(&self.0).ok()
+    }
+    fn to_string_lossy(&self) -> std::borrow::Cow<'_, str> {
+        String::from_utf8_lossy(&self.0)
+    }
+    fn ends_with_newline(&self) -> bool {
+        self.0.ends_with_newline()
+    }
+    fn len(&self) -> usize {
+        self.0.len()
+    }
+    fn slice(&self, rng: std::ops::Range<usize>) -> &Ci {
+        Ci::new(&self.0[rng])
+    }
+    fn as_bytes(&self) -> &[u8] {
+        &self.0
+    }
 }
